@@ -75,12 +75,24 @@ fn with_capture<R>(f: impl FnOnce() -> R) -> R {
 // ------------------------------------------------------------------------------------------
 // minimisation
 
+thread_local! {
+    static MIN_DEADLINE: std::cell::Cell<Option<Instant>> = const { std::cell::Cell::new(None) };
+}
+
 fn still_fails(plan: &Plan, oracle_id: &str, budget: &mut u32) -> bool {
-    if *budget == 0 {
+    if *budget == 0 || MIN_DEADLINE.with(|d| d.get()).map_or(false, |d| Instant::now() > d) {
         return false;
     }
     *budget -= 1;
     run_plan(plan).violations.iter().any(|v| v.oracle == oracle_id)
+}
+
+/// minimisation bounded by a number of runs and (optionally) a wall-clock deadline
+pub fn minimise_until(plan: &Plan, oracle_id: &str, deadline: Option<Instant>) -> Plan {
+    MIN_DEADLINE.with(|d| d.set(deadline));
+    let r = minimise(plan, oracle_id);
+    MIN_DEADLINE.with(|d| d.set(None));
+    r
 }
 
 pub fn minimise(plan: &Plan, oracle_id: &str) -> Plan {
@@ -416,7 +428,7 @@ pub fn check(a: &CheckArgs) -> i32 {
     let t0 = Instant::now();
     let property = a.property.as_str();
     let thorough = a.thorough();
-    let budget = a.budget(70);
+    let budget = a.budget(55);
     let max_runs = a.runs.unwrap_or(u64::MAX);
 
     // ---- determinism self-check: N seeds x 2 in-process runs x 1 fresh process
@@ -454,7 +466,7 @@ pub fn check(a: &CheckArgs) -> i32 {
     let mut map_part = None;
     let mut map_violations: Vec<(u64, Violation)> = vec![];
     if property == "C18" {
-        let mb = if thorough { Duration::from_secs(budget.as_secs() / 5) } else { Duration::from_secs(12) };
+        let mb = if thorough { Duration::from_secs(budget.as_secs() / 6) } else { Duration::from_secs(8) };
         let r = mapdrv::batch(a.seed, mb, a.threads);
         map_violations = r.violations.clone();
         map_part = Some(r);
@@ -590,6 +602,13 @@ pub fn check(a: &CheckArgs) -> i32 {
     }
 
     g.violations.extend(map_violations.iter().cloned());
+    let mut by_oracle: BTreeMap<String, u64> = BTreeMap::new();
+    for (_, v) in &g.violations {
+        *by_oracle.entry(format!("{} [{}]", v.oracle, v.sig)).or_insert(0) += 1;
+    }
+    for (k, n) in &by_oracle {
+        println!("violations by oracle: {k}: {n}");
+    }
     let mut replays = vec![];
     let (exit, new_violations, known_seen) = simkit::triage(property, &g.violations, |seed, v| {
         if v.oracle.starts_with("c18.map.") {
@@ -598,10 +617,17 @@ pub fn check(a: &CheckArgs) -> i32 {
             return path;
         }
         let original = gen::plan_for(property, seed);
+        // minimisation is time-boxed: quick 6 s per reported oracle, thorough 120 s
+        let deadline = Instant::now() + Duration::from_secs(if thorough { 120 } else { 6 });
         let (min, o) = with_capture(|| {
-            let min = minimise(&original, &v.oracle);
+            let min = minimise_until(&original, &v.oracle, Some(deadline));
             let o = run_plan(&min);
-            (min, o)
+            if o.violations.iter().any(|x| x.oracle == v.oracle) {
+                (min, o)
+            } else {
+                let o = run_plan(&original);
+                (original.clone(), o)
+            }
         });
         let mv = o.violations.iter().find(|x| x.oracle == v.oracle).cloned().unwrap_or(v.clone());
         let doc = json!({
@@ -655,6 +681,7 @@ pub fn check(a: &CheckArgs) -> i32 {
         },
         "determinism_selfcheck": {"seeds": det_n, "in_process_rerun_equal": det_inproc_equal, "fresh_process_equal": det_xproc_equal},
         "known_findings_seen": known_seen,
+        "violations_by_oracle_and_sig": by_oracle,
         "new_violations": new_violations,
         "replays": replays,
     });
